@@ -55,15 +55,15 @@ type Sched struct {
 	Rng        *rand.Rand
 	MaxSteps   int // safety bound on scheduling steps (default 2_000_000)
 
-	mu       sync.Mutex
-	pending  []*Pending
-	perActor map[string]int
-	draining bool
-	Trace    []Choice
+	mu        sync.Mutex
+	pending   []*Pending
+	perActor  map[string]int
+	draining  bool
+	Trace     []Choice
 	KeepTrace bool
-	Steps    int
-	Advances int
-	Aborted  string
+	Steps     int
+	Advances  int
+	Aborted   string
 	// OnStep, if set, is called by the scheduler goroutine at each quiescent point before choosing.
 	OnStep func()
 }
@@ -322,6 +322,30 @@ type Restamper struct {
 	mu   sync.Mutex
 	// Stamps receives every stamp (kernel-equivalent re-stamps and explicit Chtimes) if non-nil.
 	OnStamp func(path string, t time.Time, explicit bool, e *fsmon.Event)
+	existed sync.Map // event Seq → the target existed before the operation (see Before)
+}
+
+// Before records, for operations which create their target only when it is missing, whether it was there: a kernel
+// stamps the parent directory only when an entry is really added. Call it right before the operation runs
+// (after the gate).
+func (r *Restamper) Before(e *fsmon.Event) {
+	switch e.Op {
+	case fsmon.OpCreate, fsmon.OpMkdirAll:
+	case fsmon.OpOpenFile:
+		if e.Flag&os.O_CREATE == 0 {
+			return
+		}
+	default:
+		return
+	}
+	if _, err := r.Base.Stat(e.Path); err == nil {
+		r.existed.Store(e.Seq, true)
+	}
+}
+
+func (r *Restamper) didExist(e *fsmon.Event) bool {
+	_, ok := r.existed.LoadAndDelete(e.Seq)
+	return ok
 }
 
 func (r *Restamper) stamp(path string, e *fsmon.Event) {
@@ -333,22 +357,30 @@ func (r *Restamper) stamp(path string, e *fsmon.Event) {
 
 // After is the fsmon After hook.
 func (r *Restamper) After(e *fsmon.Event) {
+	existed := r.didExist(e)
 	if !e.Effective {
 		return
 	}
 	switch e.Op {
-	case fsmon.OpMkdir, fsmon.OpMkdirAll:
+	case fsmon.OpMkdir:
 		r.stamp(e.Path, e)
 		r.stamp(filepath.Dir(e.Path), e)
+	case fsmon.OpMkdirAll:
+		if !existed {
+			r.stamp(e.Path, e)
+			r.stamp(filepath.Dir(e.Path), e)
+		}
 	case fsmon.OpCreate:
 		r.stamp(e.Path, e)
-		r.stamp(filepath.Dir(e.Path), e)
+		if !existed {
+			r.stamp(filepath.Dir(e.Path), e)
+		}
 	case fsmon.OpOpenFile:
-		if e.Flag&(os.O_CREATE|os.O_TRUNC) != 0 {
+		if e.Flag&os.O_TRUNC != 0 || (e.Flag&os.O_CREATE != 0 && !existed) {
 			r.stamp(e.Path, e)
-			if e.Flag&os.O_CREATE != 0 {
-				r.stamp(filepath.Dir(e.Path), e)
-			}
+		}
+		if e.Flag&os.O_CREATE != 0 && !existed {
+			r.stamp(filepath.Dir(e.Path), e)
 		}
 	case fsmon.OpFWrite, fsmon.OpFWriteAt, fsmon.OpFWriteString, fsmon.OpFTruncate:
 		r.stamp(e.Path, e)
